@@ -54,6 +54,53 @@ OVERFLOW_PAIRS = [(1 << 63, 2), (U64 - 1, 2), (1 << 32, 1 << 32), (0x55555555555
                   ((1 << 62) + 1, 4), (U64 - 1, U64 - 1), (1 << 61, 8)]
 
 
+# record sizes far beyond anything that can be stored (a caller may pass any positive size_t)
+HUGE_RECLENS = [1 << 32, (1 << 32) + 1, (1 << 44) + 1, 1 << 62, (1 << 63) + 8, U64 // 3 + 2, U64 - 1, U64 // 2]
+
+
+def wrap_pair(r):
+    """(nrec, reclen) whose true product does not fit in 64 bits while the product mod 2^64 is a small,
+    allocatable number of bytes - mostly >= nrec (so that 'product < nrec' does not betray the overflow),
+    sometimes below.  Solved from nrec * reclen = t (mod 2^64): modest counts get huge record sizes
+    (3 x (2^64+5)/3, 2^20 x (2^44+1), 2 x (2^63+8), ...); one pair in four is returned swapped (huge count,
+    modest-to-huge record size), and counts beyond 2^32 give two huge factors."""
+    while True:
+        nrec = r.choice([2, 3, 3, 4, 5, 6, 7, 12, 16, 100, 1 << 10, 1 << 20, (1 << 20) + 1,
+                         r.randrange(2, 1 << 6), r.randrange(2, 1 << 12), r.randrange(2, 1 << 21),
+                         r.randrange(1 << 32, 1 << 34)])
+        a = (nrec & -nrec).bit_length() - 1
+        m = nrec >> a
+        mod = 1 << (64 - a)
+        c = r.choice([m, m, m + 1, m + r.randrange(64), m * r.choice([2, 3, 8]), r.randrange(1, 2 * m + 1)])
+        t = c << a                                  # the wrapped product
+        if t > (1 << 22):
+            c = r.randrange(1, 64)
+            t = c << a
+            if t > (1 << 40):
+                continue
+        reclen = (c * pow(m, -1, mod)) % mod + r.randrange(1 << a) * mod
+        if not 0 < reclen < U64 or nrec * reclen < U64:
+            continue
+        assert (nrec * reclen) % U64 == t
+        return (reclen, nrec) if r.randrange(4) == 0 else (nrec, reclen)
+
+
+def overflow_pair(ctx, r, tag):
+    """a (nrec, reclen) whose product overflows size_t: the fixed classics or an aimed wrapping pair"""
+    if r.randrange(2):
+        ctx.count(tag + ".wraps-to-small")
+        return wrap_pair(r)
+    return r.choice(OVERFLOW_PAIRS)
+
+
+def any_reclen(ctx, r, tag):
+    """a record size for the operations that only divide by it: ordinary, or (1 in 12) a huge one"""
+    if r.randrange(12) == 0:
+        ctx.count(tag + ".huge-reclen")
+        return r.choice(HUGE_RECLENS)
+    return r.choice(RECLENS)
+
+
 def gen_ea_case(ctx, r, nops):
     s = EaSim()
     ops = []
@@ -61,8 +108,15 @@ def gen_ea_case(ctx, r, nops):
     def init():
         k = r.randrange(10)
         if k == 0:
-            nrec, reclen = r.choice(OVERFLOW_PAIRS)
+            nrec, reclen = overflow_pair(ctx, r, "ea.init")
             ctx.count("ea.init.overflow")
+        elif k == 1 and r.randrange(3) == 0:
+            # nothing of a huge record size / one record too large to allocate: no overflow
+            nrec, reclen = r.choice([0, 0, 1]), r.choice(HUGE_RECLENS)
+            if nrec == 0:
+                s.live = True
+                s.size = s.alloc = 0
+            ctx.count("ea.init.huge-reclen")
         else:
             nrec, reclen = r.choice([0, 0, 1, 2, 3, 7, 8, r.randrange(40)]), r.choice(RECLENS)
             s.live = True
@@ -89,7 +143,12 @@ def gen_ea_case(ctx, r, nops):
             s.resize(s.size + nrec * reclen)
             ctx.count("ea.append")
         elif k < 31:
-            nrec, reclen = r.choice(OVERFLOW_PAIRS + [(U64 - 1, 1), (U64 - s.size, 1), (U64 - 1 - s.size, 1)])
+            if r.randrange(3) == 0:
+                nrec, reclen = wrap_pair(r)
+                ctx.count("ea.append.wraps-to-small")
+            else:
+                nrec, reclen = r.choice(OVERFLOW_PAIRS + [(U64 - 1, 1), (U64 - s.size, 1), (U64 - 1 - s.size, 1),
+                                                          (0, r.choice(HUGE_RECLENS)), (1, r.choice(HUGE_RECLENS))])
             ops.append("app:%x:%x:%s" % (nrec % U64, reclen, hx(rb(r, r.randrange(4)))))
             ctx.count("ea.append.overflow-or-huge")
         elif k < 51:
@@ -104,7 +163,7 @@ def gen_ea_case(ctx, r, nops):
                 nrec = s.size // reclen + r.choice([0, 0, 1])
                 ctx.count("ea.shrink.all")
             elif kind == 2 and r.randrange(3) == 0:
-                nrec, reclen = r.choice(OVERFLOW_PAIRS)
+                nrec, reclen = overflow_pair(ctx, r, "ea.shrink")
                 ctx.count("ea.shrink.overflow")
             else:
                 nrec = r.randrange(0, 9)
@@ -113,9 +172,17 @@ def gen_ea_case(ctx, r, nops):
             prod = nrec * reclen
             s.resize(0 if prod > s.size else s.size - prod)
         elif k < 61:
-            if r.randrange(8) == 0:
-                nrec, reclen = r.choice(OVERFLOW_PAIRS + [(1 << 40, 1), (1 << 25, 1)])
+            if r.randrange(5) == 0:
+                if r.randrange(2):
+                    nrec, reclen = wrap_pair(r)
+                    ctx.count("ea.resize.wraps-to-small")
+                else:
+                    nrec, reclen = r.choice(OVERFLOW_PAIRS + [(1 << 40, 1), (1 << 25, 1), (1, r.choice(HUGE_RECLENS))])
                 ctx.count("ea.resize.overflow-or-huge")
+            elif r.randrange(25) == 0:
+                nrec, reclen = 0, r.choice(HUGE_RECLENS)
+                s.resize(0)
+                ctx.count("ea.resize.zero-of-huge-reclen")
             else:
                 nrec = r.choice([0, 1, 2, 5, r.randrange(30), r.randrange(120), s.size // reclen])
                 s.resize(nrec * reclen)
@@ -126,15 +193,15 @@ def gen_ea_case(ctx, r, nops):
             s.alloc = s.size
             ctx.count("ea.truncate")
         elif k < 80:
-            ops.append("get:%x:%x" % (r.randrange(64), reclen))
+            ops.append("get:%x:%x" % (r.randrange(64), any_reclen(ctx, r, "ea.get")))
             ctx.count("ea.get")
         elif k < 86:
-            ops.append("size:%x" % reclen)
+            ops.append("size:%x" % any_reclen(ctx, r, "ea.getsize"))
         elif k < 91:
-            ops.append("dup:%x" % reclen)
+            ops.append("dup:%x" % any_reclen(ctx, r, "ea.exportdup"))
             ctx.count("ea.exportdup" if s.size else "ea.exportdup.empty")
         elif k < 95:
-            ops.append("exp:%x" % reclen)
+            ops.append("exp:%x" % any_reclen(ctx, r, "ea.export"))
             s.live = False
             ctx.count("ea.export" if s.size else "ea.export.empty")
         elif k < 97:
